@@ -124,6 +124,9 @@ def alpha(v):
     if isinstance(v, SSeq) and v.kind == "bytes":
         return HNode.HBlank        # only b'' is a raw node among byte strings (callers check)
     if isinstance(v, ListObj) and v.items is not None:
+        src = getattr(v, "model_term", None)
+        if src is not None and len(v.items) == len(v.model_items) and all(a is b for a, b in zip(v.items, v.model_items)):
+            return src          # an unmodified list materialised from the node term `src` denotes `src`
         if len(v.items) == 2:
             p, f = hpk_parts(bytes_of(v.items[0]))
             second = v.items[1]
@@ -152,6 +155,8 @@ def materialize(E, D, origin=None):
     else:
         lst = ListObj(items=[SRef(z3.simplify(child(D, i))) for i in range(16)] + [SSeq(z3.simplify(HNode.bval(D)), "bytes")])
     E.assume(mk_bool(z3.Length(lst.items[0].t) >= 1)) if k in (1, 2) else None     # a hex-prefix key is never empty
+    lst.model_term = z3.simplify(D)
+    lst.model_items = tuple(lst.items)
     if origin is not None:
         plist, j = origin
         plist.items[j] = lst          # the parent's slot *is* this list (decode_node returns the embedded list itself)
@@ -194,29 +199,103 @@ def tail(k, n):
     return z3.simplify(z3.Extract(k, n, z3.Length(k) - n))
 
 
+def ref_leaves(r, out=None):
+    """the references a slot term can denote: the leaves of its if-then-else structure"""
+    out = [] if out is None else out
+    r = z3.simplify(r)
+    if z3.is_app(r) and r.decl().kind() == z3.Z3_OP_ITE:
+        ref_leaves(r.arg(1), out)
+        ref_leaves(r.arg(2), out)
+    else:
+        if not any(x.eq(r) for x in out):
+            out.append(r)
+    return out
+
+
+def resolve_ref(r):
+    """node term a reference leaf denotes when that is visible syntactically (an embedded node, or the hash of the
+    rlp of a node built on this path); None for an opaque reference"""
+    r = z3.simplify(r)
+    if not z3.is_app(r):
+        return None
+    name = r.decl().name()
+    if name == "REmb":
+        return r.arg(0)
+    if name == "RHash":
+        h = r.arg(0)
+        if z3.is_app(h) and h.decl().eq(specfn.keccak):
+            e = h.arg(0)
+            if z3.is_app(e) and e.decl().eq(rlpenc):
+                return e.arg(0)
+    return None
+
+
+def is_constructor(D):
+    D = z3.simplify(D)
+    return z3.is_app(D) and D.decl().name() in ("HBlank", "HLeaf", "HExt", "HBranch")
+
+
+def has_rule(E, D):
+    D = z3.simplify(D)
+    for (Dres, fn, Dsrc) in E.ghost.get("hview_rules2", []):
+        if Dres.eq(D) or Dsrc.eq(D):
+            return True
+    return False
+
+
 def unfold_hlk(E, D, k, depth=1):
+    """definitional step of hlk at (D, k).  With depth > 0 the children that are visible syntactically (nodes built
+    on this path, embedded nodes) are unfolded in turn at the remaining key, and the view rules recorded by callee
+    contracts are instantiated at the lookups that occur."""
     D, k = z3.simplify(D), z3.simplify(k)
     done = E.ghost.setdefault("hlk_unfolded", [])
     for (d2, k2) in done:
         if d2.eq(D) and k2.eq(k):
             return
     done.append((D, k))
+    for (Dres, fn, Dsrc) in E.ghost.get("hview_rules2", []):
+        if Dres.eq(D) or z3.simplify(Dsrc).eq(D):
+            E.assume(mk_bool(fn(k)))
+            if depth > 0:
+                unfold_hlk(E, Dsrc, k, depth - 1)
+                unfold_hlk(E, Dres, k, depth - 1)
     empty = z3.Empty(SeqI)
     lk = z3.Length(k)
     ep = HNode.epath(D)
     ext_next = deref(E, HNode.echild(D))
     br = empty
-    nexts = []
     kt = tail(k, 1)
     for i in reversed(range(16)):
         nx = deref(E, child(D, i))
-        nexts.append(nx)
         br = z3.If(k[0] == i, hlk(nx, kt), br)
     body = z3.If(HNode.is_HBlank(D), empty,
                  z3.If(HNode.is_HLeaf(D), z3.If(k == HNode.lpath(D), HNode.lval(D), empty),
                        z3.If(HNode.is_HExt(D), z3.If(z3.PrefixOf(ep, k), hlk(ext_next, tail(k, z3.Length(ep))), empty),
                              z3.If(lk == 0, HNode.bval(D), br))))
     E.assume(mk_bool(hlk(D, k) == body))
+    # a blank child holds nothing (definition of hlk at HBlank, at the two keys a step can continue with)
+    E.assume(mk_bool(z3.And(hlk(HNode.HBlank, kt) == empty, hlk(HNode.HBlank, tail(k, z3.Length(ep))) == empty)))
+    if depth <= 0 or not is_constructor(D):
+        return
+    name = D.decl().name()
+    nexts = []
+    if name == "HExt":
+        for leaf in ref_leaves(D.arg(1)):
+            nexts.append((leaf, tail(k, z3.Length(D.arg(0)))))
+    elif name == "HBranch":
+        for i in range(16):
+            for leaf in ref_leaves(D.arg(i)):
+                nexts.append((leaf, kt))
+    seen = []
+    for (leaf, kk) in nexts:
+        X = resolve_ref(leaf)
+        if X is None or any(x.eq(X) for x in seen):
+            continue
+        seen.append(X)
+        # the reference denotes X: make that visible (deref unfolds to X by the hash / rlp facts)
+        E.assume(mk_bool(z3.Implies(z3.Not(HNode.is_HBlank(X)), deref(E, leaf) == X))) if leaf.decl().name() == "REmb" else None
+        if is_constructor(X) or has_rule(E, X):
+            unfold_hlk(E, X, kk, depth - 1)
 
 
 class HexDbInvariant:
@@ -272,6 +351,8 @@ def x_encode_raw(E, node):
     r = z3.simplify(rlpenc(D))
     E.assume(mk_bool(rlpdec(r) == D))
     E.assume(mk_bool(z3.Length(r) >= 1))
+    # the encoding of a list starts with a byte >= 0xc0: it is neither b'' nor rlp(b'') = b'\x80'
+    E.assume(mk_bool(z3.Implies(z3.Not(HNode.is_HBlank(D)), r[0] >= 192)))
     return SSeq(r, "bytes", "int")
 
 
@@ -291,8 +372,40 @@ def branch_slot(E, lst, j):
     return SRef(z3.simplify(t))
 
 
+def branch_slot_any(E, lst, j):
+    """node[i] for a symbolic nibble i on a 17-slot branch (any slot contents): the reference selected by i.
+    Identity of an embedded child is forgotten (value semantics); see DESIGN section 0 on aliasing."""
+    if not E.ghost.get("hex_value_slots") or lst.items is None or len(lst.items) != 17:
+        return NotImplemented
+    jt = j if isinstance(j, z3.ExprRef) else z3.IntVal(j)
+    if not E.implied(mk_bool(z3.And(jt >= 0, jt <= 15))):
+        return NotImplemented
+    t = ref_of(lst.items[15])
+    for i in reversed(range(15)):
+        t = z3.If(jt == i, ref_of(lst.items[i]), t)
+    return SRef(z3.simplify(t))
+
+
+def branch_slot_store(E, lst, j, val):
+    """node[i] = v for a symbolic nibble i on a 17-slot branch: every child slot becomes If(i == p, v, old)"""
+    if not E.ghost.get("hex_value_slots") or lst.items is None or len(lst.items) != 17:
+        return False
+    jt = j if isinstance(j, z3.ExprRef) else z3.IntVal(j)
+    if not E.implied(mk_bool(z3.And(jt >= 0, jt <= 15))):
+        return False
+    E.check_mut(lst)
+    rv = ref_of(val)
+    for p in range(16):
+        lst.items[p] = SRef(z3.simplify(z3.If(jt == p, rv, ref_of(lst.items[p]))))
+    return True
+
+
 def install():
     from pyvc import lib
+    if branch_slot_any not in lib.SLOT_HOOKS:
+        lib.SLOT_HOOKS.append(branch_slot_any)
+    if branch_slot_store not in lib.SLOT_STORE_HOOKS:
+        lib.SLOT_STORE_HOOKS.append(branch_slot_store)
     lib.EXT["rlp.decode"] = x_rlp_decode
     lib.EXT["rlp.codec.encode_raw"] = x_encode_raw
     if branch_slot not in lib.SLOT_HOOKS:
